@@ -306,6 +306,9 @@ class OpaqueV:
     def __repr__(self):
         return f"<opaque {self.what}>"
 
+    def havoc(self, name):
+        return self          # an opaque value carries no information: "arbitrary" is the same opaque value
+
 
 # string literals <-> Id constants ---------------------------------------------------
 _id_consts: dict[str, z3.ExprRef] = {}
